@@ -430,7 +430,7 @@ pub fn run(ctx: &Ctx) -> (Report, PropertyMeta) {
     let r = run_cases(ctx, "rr", &cases, rr_outcome);
     report.exhaustive_parts.push(format!("PUSH/DEALER/REQ x 0..5 peers x (3n+1 sends; one join after each of the first n+1 sends; a join while a send is stalled): {} cases", cases.len()));
     report.merge(r);
-    let n = t.pick(4000, 150_000);
+    let n = t.pick(30_000, 600_000);
     let max_exp = t.pick(18, 19);
     let r = run_random(ctx, "rr", n, 60..=300, |s| gen_rr(s, max_exp), rr_outcome);
     report.sections.push(json!({"part": "random histories: sends, joins, actor steps, write windows (partial / stalled-then-released)", "cases": n}));
